@@ -272,6 +272,21 @@ def _a1():
     }
     for name, (fn, specs) in dbl.items():
         _reg("A1", f"dbl.{name}", functools.partial(P, fn, specs, config={"enable_double_precision": True}))
+    # dot_general layouts: batch / contracting axes anywhere (operands need 3-cycle permutations to reach
+    # batch-free-contract order; a permutation and its inverse differ only there)
+    dots = {
+        "batch_last": (lambda a, b: lax.dot_general(a, b, (((1,), (0,)), ((2,), (2,)))), [((3, 5, 2), F32), ((5, 4, 2), F32)]),
+        "batch_mid_contract_first": (lambda a, b: lax.dot_general(a, b, (((0,), (2,)), ((1,), (0,)))), [((5, 2, 3), F32), ((2, 4, 5), F32)]),
+        "vmap_matmul_axis2": (jax.vmap(lambda a, b: jnp.matmul(a, b), in_axes=(2, 2)), [((3, 5, 2), F32), ((5, 4, 2), F32)]),
+        "vmap_matmul_axis1_0": (jax.vmap(lambda a, b: jnp.matmul(a, b), in_axes=(1, 0)), [((3, 2, 5), F32), ((2, 5, 4), F32)]),
+        "einsum_bij_bjk_last": (lambda a, b: jnp.einsum("ijb,jkb->bik", a, b), [((3, 5, 2), F32), ((5, 4, 2), F32)]),
+        "einsum_transposed_out": (lambda a, b: jnp.einsum("bij,bjk->kib", a, b), [((2, 3, 5), F32), ((2, 5, 4), F32)]),
+        "two_contract": (lambda a, b: lax.dot_general(a, b, (((0, 2), (1, 0)), ((), ()))), [((3, 4, 5), F32), ((5, 3, 2), F32)]),
+        "tensordot_axes": (lambda a, b: jnp.tensordot(a, b, axes=((0,), (2,))), [((3, 4), F32), ((2, 5, 3), F32)]),
+        "batch_last_sym": (lambda a, b: lax.dot_general(a, b, (((1,), (0,)), ((2,), (2,)))), [((3, 5, "B"), F32), ((5, 4, "B"), F32)]),
+    }
+    for name, (fn, specs) in dots.items():
+        _reg("A1", f"dot.{name}", functools.partial(P, fn, specs))
     # python-scalar operands on either side
     for on, f in {"rpow": lambda x: 0.5 ** x, "pow2": lambda x: x ** 2.0, "rsub": lambda x: 1.0 - x, "rdiv": lambda x: 2.0 / x, "rmax": lambda x: jnp.maximum(0.25, x), "rwhere": lambda x: jnp.where(x > 0, 1.0, x)}.items():
         for cn, sh in {"B3": ("B", 3), "23": (2, 3)}.items():
